@@ -26,7 +26,10 @@ THEOREMS = ['C10_rot_group', 'C10_rot_steps', 'C10_rot_inverse', 'C10_mir_involu
             'C10_leapfrog_trajectory_equivariant', 'C10_integrators_equivariant',
             'C10_primeq_nodal_shift_equivariant', 'C10_primeq_nodal_mirror_equivariant', 'C10_get_cos_lat_vector_mirror',
             'C10_primeq_columns_of_mirrored_state', 'C10_primeq_tendency_mirror_equivariant',
-            'C10_primeq_mirrored_state_tendency', 'C10_primeq_humidity_mirror', 'C10_example']
+            'C10_primeq_mirrored_state_tendency', 'C10_primeq_humidity_mirror',
+            'C10_get_cos_lat_vector_rot', 'C10_primeq_columns_of_rotated_state', 'C10_primeq_tendency_rot_equivariant',
+            'C10_primeq_rotated_state_tendency', 'C10_primeq_humidity_rot', 'C10_implicit_terms_equivariant',
+            'C10_implicit_inverse_equivariant', 'C10_example']
 LEVEL = 'proof'
 LEVEL_TEXT = ('machine-checked theorems (Coq), for every field and all sizes: the rotation tables form a group acting on '
               'modal arrays (bijective when c^2+s^2=1), the mirror is an involution commuting with rotations; synthesis and '
@@ -36,18 +39,21 @@ LEVEL_TEXT = ('machine-checked theorems (Coq), for every field and all sizes: th
               'mirror parity, so grad maps scalars to (even, odd) vectors, div is a scalar, curl a pseudo-scalar and k-cross '
               'flips; every map built from equivariant F, G, G_inv by linear combinations (all integrators of '
               'time_integration.py, any tableau) is equivariant, hence k-step trajectories with equivariant filters. '
-              'For the mirror the composition is proved through the explicit primitive-equation tendencies: every nodal '
-              'expression of the column algebra of Model/PrimEq.v (dry, moist, cloud classes; all K, all level sets) has '
-              'the parity the modal stage expects, and the assembled temperature / tracer / lnps / divergence tendencies '
-              'of the mirrored modal state are the mirrored scalars, the vorticity tendency the mirrored pseudo-scalar, '
-              'with the concrete transforms and spectral operators under H_parity and H_nodes_sym. '
-              'The table hypotheses are re-checked numerically on every explored grid; rotations of the full tendencies '
-              '(beyond the pointwise nodal stage), shallow water, Held-Suarez and the implicit parts are decided by the '
+              'The composition is proved through the explicit primitive-equation tendencies for BOTH actions: every nodal '
+              'expression of the column algebra of Model/PrimEq.v (dry, moist, cloud classes; all K, all level sets) is '
+              'pointwise in the horizontal and has the mirror parity the modal stage expects, and the assembled '
+              'temperature / tracer / lnps / divergence / vorticity tendencies (and humidity corrections) of the rotated '
+              '(by k grid steps, orography rotated too) or mirrored modal state are the rotated / mirrored tendencies '
+              '(vorticity as pseudo-scalar), with the concrete transforms and spectral operators under H_rot_table, '
+              'H_p_pairs, H_rot_unit, paired recurrence weights, H_parity and H_nodes_sym; the implicit terms and the '
+              'implicit inverse (column operators depending on l only) commute with both actions. '
+              'The table hypotheses are re-checked numerically on every explored grid; shallow water and Held-Suarez '
+              'explicit terms (no Coq model) and whole steps of the concrete operators are decided by the '
               'equivariance oracles on the implementation (exploration), for every grid-step rotation and the mirror.')
 LEVEL_NOTE = ('theorems are about the Gallina models (Model/Symmetry.v actions, Model/SHT.v transforms, Model/Deriv.v '
               'operators, Model/Invariants.v step terms, Model/PrimEq.v nodal column algebra - the latter tied to the code by '
-              'property C04); mirror equivariance of the assembled explicit primitive-equation tendencies is proved, '
-              'rotation equivariance of the assembled tendencies, shallow water and Held-Suarez are explored (oracles)')
+              'properties C04 / C03); rotation and mirror equivariance of the assembled explicit primitive-equation tendencies '
+              'and of the implicit terms / inverse are proved; shallow water and Held-Suarez explicit terms are explored (oracles)')
 TECHNIQUE = 'Coq proof of equivariance of every building block and of the integrator term language; table obligations; equivariance oracles on the implementation'
 
 TOL = 1e-11
